@@ -79,6 +79,15 @@ def main():
                 got2 = m & sym(v)
                 assert realize(got) == v & m and realize(got2) == v & m, ("E4", v, m)
                 n += 2
+    # E10: (x << k) | y and ^ with disjoint bits
+    for v in ints[:20]:
+        for y in (0, 1, 0x7F, 0xFF):
+            with standalone_statespace:
+                got = (sym(v) << 8) | sym(y)
+                got2 = y ^ (sym(v) << 8)
+                got3 = sym(v) | 5  # not disjoint in general: falls back to realisation, still correct
+                assert realize(got) == (v << 8) | y and realize(got2) == y ^ (v << 8) and realize(got3) == v | 5, ("E10", v, y)
+                n += 3
     # B7: to_bytes(from_bytes(bs)) == bs (shortcut for 5..16 bytes, CrossHair's generic model otherwise)
     for ln in (1, 2, 4, 5, 8, 16):
         for _ in range(10):
